@@ -137,16 +137,28 @@ def declare(w):
                    props=["C14", "C06", "C07"]))
 
     # ---- _local_schedulexec -----------------------------------------------------------------------------------
+    # the decoded request (source, file name, call name, kwargs) is a function of the payload and of the string coercion pair it was decoded with; a request is always
+    # decoded with the class defaults - the gateway's pair is for channel DATA (a reconfigured gateway would turn the source text into bytes)
+    dsrc = z3.Function("dsrc", z3.StringSort(), z3.BoolSort(), z3.BoolSort(), z3.StringSort())
+    s.declare("BaseGateway", "_strconfig", TUP(BOOL, BOOL))
     w.add(Contract(f"{GB}:loads_internal", {"bytestring": BYTES, "channelfactory": NONE, "strconfig": NONE}, defaults={"channelfactory": None, "strconfig": None},
-                   cases=[Case("ok", restype=TASK), Case("corrupt", "raise", "LoadError"), Case("eof", "raise", "EOFError")], trusted=True,
-                   note="decoding of the CHANNEL_EXEC payload (C01/C13)"))
+                   cases=[Case("ok", restype=TASK, post=lambda a, h, h2, r: [r.v[0].v == dsrc(a.bytestring, z3.BoolVal(True), z3.BoolVal(False))]),
+                          Case("corrupt", "raise", "LoadError"), Case("eof", "raise", "EOFError")], trusted=True,
+                   note="decoding of the CHANNEL_EXEC payload (C01/C13)"), variant="none")
+    w.add(Contract(f"{GB}:loads_internal", {"bytestring": BYTES, "channelfactory": REF("BaseGateway"), "strconfig": NONE}, defaults={"strconfig": None},
+                   cases=[Case("ok", restype=TASK, post=lambda a, h, h2, r: [r.v[0].v == dsrc(a.bytestring, h.sv("BaseGateway", a.channelfactory, "_strconfig").v[0].v,
+                                                                                        h.sv("BaseGateway", a.channelfactory, "_strconfig").v[1].v)]),
+                          Case("corrupt", "raise", "LoadError"), Case("eof", "raise", "EOFError")], trusted=True,
+                   note="decoding with a gateway given: that gateway's coercion pair applies (C12)"), variant="gateway")
+    s.declare("WorkerGateway", "$spawned_src", SEQ(STR), ghost=True)     # the source text of every task handed to the pool
 
     def spawn_post(a, h, h2, r):
-        return [h2("WorkerGateway", a.gw, "$spawned") == z3.Concat(h("WorkerGateway", a.gw, "$spawned"), z3.Unit(a.channel))]
+        return [h2("WorkerGateway", a.gw, "$spawned") == z3.Concat(h("WorkerGateway", a.gw, "$spawned"), z3.Unit(a.channel)),
+                h2("WorkerGateway", a.gw, "$spawned_src") == z3.Concat(h("WorkerGateway", a.gw, "$spawned_src"), z3.Unit(a.source))]
 
     # the exec pool's spawn as seen from the gateway: the task is accepted (C09: it will run exactly once) or refused
-    w.add(Contract("model:execpool.spawn", {"gw": REF("WorkerGateway"), "channel": REF("Channel")},
-                   modifies=lambda a, h: [("WorkerGateway", a.gw, "$spawned")],
+    w.add(Contract("model:execpool.spawn", {"gw": REF("WorkerGateway"), "channel": REF("Channel"), "source": STR},
+                   modifies=lambda a, h: [("WorkerGateway", a.gw, "$spawned"), ("WorkerGateway", a.gw, "$spawned_src")],
                    cases=[Case("accepted", post=spawn_post), Case("shutting-down", "raise", "ValueError")], trusted=True))
 
     def pool_spawn_hook(ex, d, args, kwargs, st, sink, node):
@@ -158,8 +170,10 @@ def declare(w):
     def execpool_spawn_call(ex, args, kwargs, st, sink, node):
         pool, func, targs = args
         gw = st.locals["self"]
-        ch = targs.v[0]
-        yield from ex.apply_contract(w.contracts["model:execpool.spawn"], [gw, ch], {}, st, sink, node)
+        ch, task = targs.v[0], targs.v[1]
+        if task.ty.kind != "tuple" or not task.v or task.v[0].ty.kind != "str":
+            raise Unsupported("the task handed to the pool is not the decoded (source, file, call, kwargs) tuple")
+        yield from ex.apply_contract(w.contracts["model:execpool.spawn"], [gw, ch, task.v[0]], {}, st, sink, node)
 
     w.externals["execpool.spawn"] = execpool_spawn_call
     w.attr_hooks[("WorkerPool", "spawn")] = execpool_spawn
@@ -173,8 +187,11 @@ def declare(w):
 
     def sched_post(a, h, h2, r):
         e = h("WorkerGateway", a.self, "_executetask_complete")
-        spawned = h2("WorkerGateway", a.self, "$spawned") == z3.Concat(h("WorkerGateway", a.self, "$spawned"), z3.Unit(a.channel))
-        refused = z3.And(h2("WorkerGateway", a.self, "$spawned") == h("WorkerGateway", a.self, "$spawned"),
+        spawned = z3.And(h2("WorkerGateway", a.self, "$spawned") == z3.Concat(h("WorkerGateway", a.self, "$spawned"), z3.Unit(a.channel)),
+                         # the task is the request as sent: decoded with the class defaults, never with the gateway's (re)configured pair
+                         h2("WorkerGateway", a.self, "$spawned_src") == z3.Concat(h("WorkerGateway", a.self, "$spawned_src"),
+                                                                                  z3.Unit(dsrc(a.sourcetask, z3.BoolVal(True), z3.BoolVal(False)))))
+        refused = z3.And(h2("WorkerGateway", a.self, "$spawned") == h("WorkerGateway", a.self, "$spawned"), h2("WorkerGateway", a.self, "$spawned_src") == h("WorkerGateway", a.self, "$spawned_src"),
                          h2("Channel", a.channel, "$closecalls") == h("Channel", a.channel, "$closecalls") + 1,
                          core.eq_sv(h2.sv("Channel", a.channel, "$closed_with"), mk_str(DEADLOCK_TEXT)))
         # main_thread_only: the wait may time out only if the completion event stayed unset; then the NEW channel, and nothing else,
@@ -188,7 +205,7 @@ def declare(w):
                    requires=lambda a, h: [("channel-not-none", a.channel != 0), ("not-executing", z3.Not(h("Channel", a.channel, "_executing"))),
                                           ("has-pool", z3.And(h("WorkerGateway", a.self, "_execpool") != 0, h("WorkerPool", h("WorkerGateway", a.self, "_execpool"), "execmodel") != 0)),
                                           ("inv-mto-has-completion-event", z3.Implies(is_mto(a, h), h("WorkerGateway", a.self, "_executetask_complete") != 0))],
-                   modifies=lambda a, h: [("WorkerGateway", a.self, "$spawned"), ("Event", h("WorkerGateway", a.self, "_executetask_complete"), "$set"),
+                   modifies=lambda a, h: [("WorkerGateway", a.self, "$spawned"), ("WorkerGateway", a.self, "$spawned_src"), ("Event", h("WorkerGateway", a.self, "_executetask_complete"), "$set"),
                                           ("Channel", a.channel, "$closecalls"), ("Channel", a.channel, "$closed_with")],
                    cases=[Case("ok", post=sched_post),
                           Case("corrupt-task", "raise", "LoadError"), Case("truncated-task", "raise", "EOFError"), Case("pool-shutting-down", "raise", "ValueError")],
